@@ -208,8 +208,9 @@ class NCElement:
     def tostring(self):
         """return a pretty-printed string output for rpc reply"""
         parser = etree.XMLParser(remove_blank_text=True, huge_tree=self.__huge_tree)
-        outputtree = etree.XML(etree.tostring(self.__doc), parser)
-        return etree.tostring(outputtree, pretty_print=True)
+        # UTF-8 throughout: the ASCII default writes character references, which are not allowed inside names
+        outputtree = etree.XML(etree.tostring(self.__doc, encoding='UTF-8'), parser)
+        return etree.tostring(outputtree, pretty_print=True, encoding='UTF-8')
 
     @property
     def data_xml(self):
